@@ -8,6 +8,16 @@ NOTE = ("Trusted: Lean 4.33 kernel + axioms propext/Quot.sound/Classical.choice 
 P = {
  "C01": ("theorems on the model's writer/reader pieces + per-op correspondence of saved bytes and reloaded objects; oracle: content of the saving object == content of the object loaded from the library's own file", "§6 C01"),
  "C03": ("theorems on the model's writer (record offsets, padding for every residue, block count, data start) + bytes of every library save == model bytes; oracle: the independent Lean Spec decoder follows the file's own pointers and is compared clause by clause with the saving object", "§6 C03"),
+ "C02": ("model of the readers (Lean) + correspondence on files written by an independent spec-level encoder over all layout variants; oracle: the loaded object vs. the independent Lean Spec decoder on the same bytes", "§6 C02"),
+ "C04": ("model reader/writer + correspondence on load -> save -> load -> save -> load -> save of generated and vendor files; oracle: content of generation 1 == generation 2, bytes of generation 3 == generation 4", "§6 C04"),
+ "C12": ("Lean theorems: the byte codec is two's complement / unsigned little endian for all 2^8 and 2^16 inputs, writers are inverse to readers; exhaustive correspondence over all one- and two-byte inputs and files carrying every pattern", "§6 C12"),
+ "C13": ("partial: Lean theorems that the model never evaluates an unchecked container access out of range on reachable states; every lane of C01-C12 re-run under ASan/UBSan/_GLIBCXX_ASSERTIONS with destruction; cannot exhibit: errors the sanitizers do not see", "§6 C13"),
+ "C14": ("partial: the model's writer is a function of the object (purity/repeatability by construction) and bytes(library) == bytes(model) on every save; two-fill-byte differential and valgrind memcheck for definedness; cannot exhibit: indeterminate bytes equal in both runs", "§6 C14"),
+ "C15": ("partial: Lean model of the save procedure over a sink that accepts k bytes (theorem: normal return iff every byte accepted) tied to the library by write(2)/writev(2) interposition at every k; real destination faults; cannot exhibit: write-back errors after close()", "§6 C15"),
+ "C16": ("partial: the model's loader is total (termination proved, no fuel exhaustion) and never `ub` for any byte string; outcome classes standard; tied to the library by structure-aware corruption under ASan with time limits; the cost bound in the announced size is a known finding", "§6 C16"),
+ "C17": ("capacity predicate limit by limit; at/below: round trip (C01 machinery); beyond: save throws or content survives - every limit at L-1, L, L+1, far; beyond-limit silent truncation recorded as known findings per limit", "§6 C17"),
+ "C18": ("partial: Lean theorem that any interleaving of two op sequences on disjoint objects gives each its sequential results (hypothesis: no shared mutable state, discharged by a symbol scan of the objects built from the current tree); TSan runs with perturbed schedules; cannot exhibit: unsampled schedules", "§6 C18"),
+ "C19": ("partial: the model is a function, so builds that each correspond to it agree; six builds {-O0,-O2,-O3}x{static,shared} compared with each other and the model; arithmetic-UB sites listed by a UBSan build must be exactly the modelled ones", "§6 C19"),
  "C05": ("agreement of header / POINT-ANALOG parameters / stored frames evaluated after every successful call of generated histories on the library and the model", "§6 C05"),
  "C06": ("Lean theorems: append / replace / extend / others-unchanged / column adds for all sizes and indices on the model; per-op correspondence with the library; oracle on frame snapshots before/after each call", "§6 C06"),
  "C07": ("guard ladder of the frame/column mutators in the model + correspondence of outcome classes; three-valued oracle (must-refuse with class / must-accept / free) on the library", "§6 C07"),
